@@ -80,7 +80,7 @@ CaseStep(e) ==
         kf == ~good /\ e.via = "alterDatabase" /\ KFOn("C08_ALTERDB_UNCHECKED")
     IN /\ e.level \in {"db", "coll", "part"}
        /\ good \/ kf
-       /\ (kf => PrintT("KF " \o ToString(Traces[tr].plan) \o " C08_ALTERDB_UNCHECKED"))
+       /\ (kf => PrintT("KF " \o Traces[tr].plan \o " C08_ALTERDB_UNCHECKED"))
        /\ kd' = kd
 
 RestartStep(e) == kd' = SeedFun(e.seed)
@@ -109,7 +109,7 @@ DeliverStep(e) ==
     IN /\ k \in AllKinds /\ o \in Obj /\ Len(o) = KindLevel(k)
        /\ (two => IsDrop(k2) /\ KindLevel(k2) <= Len(o))
        /\ "-" \notin (E1 \cup E2)
-       /\ \A n \in (E1 \cup E2) : PrintT("KF " \o ToString(Traces[tr].plan) \o " " \o n)
+       /\ \A n \in (E1 \cup E2) : PrintT("KF " \o Traces[tr].plan \o " " \o n)
        /\ kd' = kdC
 
 TStep ==
